@@ -30,6 +30,11 @@ pub fn max_vocab_strategy(n_hint: usize) -> BoxedStrategy<Option<usize>> {
 impl Prop for C03 {
     type Case = Case;
     const ID: &'static str = "C03";
+    const FUZZ_TARGET: Option<&'static str> = Some("bpe_diff");
+    const FUZZ_RUNS: u64 = 400000;
+    fn fuzz_decode(bytes: &[u8]) -> Option<Case> {
+        crate::fuzzdec::c03(bytes)
+    }
     const RULE: &'static str = "random well-formed merge tables (<= 32 merges over 1-4 letter alphabets incl. multi-byte letters, chains, whitespace-prefixed tokens, competing entries) x texts whose words are concatenations of table tokens and letters separated by whitespace runs x max_vocab_size truncation; the token ids are compared with a naive reference BPE (rescan all adjacent pairs, lowest merge id, leftmost, repeat) per whitespace-prefixed word. Non-trivial: in some word the reference performs >= 2 merges, one of them with an already merged operand (depth >= 2). Distinct = distinct serialised case.";
     const ESSENTIAL: &'static [&'static str] = &["depth>=2", "two_merges_in_word", "tie_same_id", "truncated"];
 
